@@ -176,6 +176,7 @@ func runC01(e *Env) {
 			c01FunCheck(e, it.p, it.src)
 			c01CloCheck(e, it.p, it.src)
 			c01SeqCheck(e, it.p, it.src)
+			c01StrCheck(e, it.p, it.src)
 			// the Lean VM model on the Lean-compiled bytecode against the real run: outcome, and the
 			// dispatch trace instruction for instruction (c01trace.go)
 			if _, d := c01TraceCompare(it.go_, it.tr, vreps[i]); d != "" && d != "skip" && d != "outcome" && c01TraceShrunk < 3 {
